@@ -1094,21 +1094,27 @@ MANIFEST = {
                   '_TranslationState.set_voltage/_set_indexed_voltage/_add_hold_node (append exactly the model commands, same state) are '
                   'translated and proved against the model; ProgramEntry._transform_linspace_commands (comprehension + in-place rescaling loop) '
                   'is translated and proved equal to the model transformation; C17_staircase_source_vm: the staircase theorem with the translated VM in '
-                  'place of the modelled one; index-dependent hold durations are refused (NotImplementedError).  (5) refutation: the '
+                  'place of the modelled one; index-dependent hold durations are refused (NotImplementedError).  Round 4: the rest of the '
+                  'translator (DepKey.from_voltages, dependencies() of the node classes, new_loop, get_dependency_state, '
+                  '_entry_state_unchanged_since, _add_repetition_node with the entry-state snapshot, _add_iteration_node, add_node, '
+                  'to_increment_commands), LinSpaceVM.__init__/run and LinSpaceBuilder as a state machine (hold_voltage, with_repetition/'
+                  'with_iteration/with_sequence split at the yield, to_program) are translated as well and proved equal to / refinements of '
+                  'the model (C17_add_node_is_source, C17_to_increment_commands_is_source, C17_builder_is_source); C17_staircase_source_all: the '
+                  'staircase theorem on translated code only (builder, translator, VM), for sources with loop indices by name.  (5) refutation: the '
                   'round-1 statement is false without the key-collision guard.  The model is tied to /repo on every run by the exact '
                   'correspondence check (real pipeline vs model vs independently unrolled default Loop program).',
     'level_note': 'Trusted: Coq kernel/vm_compute; harness rendering of source terms to templates (cross-checked against the '
                   'default program on every case); qupulse Loop builder as reference; float arithmetic is exact on the generated '
                   'dyadic values (decimal values are a separate stream compared within resolution x steps); the translator with its '
-                  'primitive table (GenLib.v), schemas and value semantics (aliasing is invisible to it).  Still only hand-modelled '
-                  '(tied by the correspondence check alone): the builder (hold_voltage, with_*), the node recursion '
-                  '(_add_iteration_node, _add_repetition_node incl. the entry-state snapshot, add_node), dependencies(), '
-                  'DepKey.from_voltages.  Repaired in /repo: count-1 repetition played twice, int '
+                  'primitive table (GenLib.v), schemas and value semantics (aliasing is invisible to it); for C17_staircase_source_all the '
+                  'hand-written driver (what the pulse templates call on the builder) and the positional reading of named sources.  Still '
+                  'only hand-modelled (tied by the correspondence check alone): the sorting of the voltages by channel index in hold_voltage, '
+                  'inner_scope, how the templates drive the builder.  Repaired in /repo: count-1 repetition played twice, int '
                   'voltages (round 1); repetition entry state, zero-factor aliasing, register shared across depths, index rebinding '
                   'under a repetition, unused outputs in the hardware scaling (round 2); shadowed loop index -> AssertionError (round 3, '
                   'a68b904).  No known finding left.',
-    'technique': 'Coq proof over a hand-written executable model (VM step/set_commands, set_voltage, _set_indexed_voltage, '
-                 '_add_hold_node, _transform_linspace_commands and the increment kernel translated from source and proved against it) + exact correspondence '
+    'technique': 'Coq proof over a hand-written executable model (builder, whole translator, VM, _transform_linspace_commands and the '
+                 'increment kernel translated from source on every run and proved against it) + exact correspondence '
                  'check against the real pipeline',
     'design_ref': 'DESIGN.md §5 C17',
 }
